@@ -205,9 +205,39 @@ def run_one(ctx, mod, case):
     ctx.current_case = None
 
 
+# Ambient configuration of the process a shard runs in.  None of the properties is conditional on it, so the same
+# workload is spread over ordinary processes, processes with DEBUG logging switched on (every record is formatted by a
+# sink handler) and processes whose locale encoding is ASCII (no UTF-8 mode, no locale coercion): what the library does
+# only "when verbose" or only "on my UTF-8 machine" is observed too.  The parent picks by shard number; a replay file
+# records the ambient of the shard that produced it.
+AMBIENTS = ['default', 'logging-debug', 'default', 'ascii-locale']
+AMBIENT_STATE = {'name': 'default', 'log_records_formatted': 0}
+
+
+def ambient_for(shard):
+    return os.environ.get('VP_AMBIENT') or AMBIENTS[shard % len(AMBIENTS)]
+
+
+def apply_ambient(name):
+    AMBIENT_STATE['name'] = name
+    if name == 'logging-debug':
+        import logging
+
+        class _Sink(logging.Handler):
+            def emit(self, record):
+                AMBIENT_STATE['log_records_formatted'] += 1
+                record.getMessage()
+
+        root = logging.getLogger()
+        root.setLevel(logging.DEBUG)
+        root.addHandler(_Sink(level=logging.DEBUG))
+        logging.raiseExceptions = True
+
+
 def shard_main(argv):
     prop, tier, seed, shard, nshards, out = argv[0], argv[1], int(argv[2]), int(argv[3]), int(argv[4]), argv[5]
     replay = argv[6] if len(argv) > 6 else None
+    apply_ambient(os.environ.get('VP_AMBIENT') or 'default')
     bootstrap_repo()
     from . import probes
     mod = load_module(prop)
@@ -231,6 +261,14 @@ def shard_main(argv):
         reach.stop()
         ctx.cleanup()
     res = ctx.result()
+    for v in res['violations']:
+        v['ambient'] = AMBIENT_STATE['name']
+    res['counters']['ambient:%s:evaluations' % AMBIENT_STATE['name']] = res['evaluations']
+    if AMBIENT_STATE['name'] == 'logging-debug':
+        res['counters']['ambient:logging-debug:log-records-formatted'] = AMBIENT_STATE['log_records_formatted']
+    if AMBIENT_STATE['name'] == 'ascii-locale':
+        import locale
+        res['counters']['ambient:ascii-locale:preferred-encoding=%s' % locale.getpreferredencoding(False)] = 1
     res['anchor_reach'] = reach.report()
     res['wall_s'] = time.time() - t0
     hashes = array.array('Q', sorted(ctx.nontriv))
@@ -257,6 +295,16 @@ def _spawn(prop, tier, seed, shard, nshards, out, replay, results, errors):
     env['PYTHONDONTWRITEBYTECODE'] = '1'
     env['PYTHONPATH'] = VERIF + os.pathsep + os.path.join(REPO, 'lib')
     env['VP_REPO'] = REPO
+    ambient = ambient_for(shard)
+    if replay and not os.environ.get('VP_AMBIENT'):
+        try:
+            with open(replay) as f:
+                ambient = json.load(f).get('ambient') or 'default'
+        except (OSError, ValueError):
+            ambient = 'default'
+    env['VP_AMBIENT'] = ambient
+    if ambient == 'ascii-locale':
+        env.update({'LC_ALL': 'C', 'LANG': 'C', 'PYTHONCOERCECLOCALE': '0', 'PYTHONUTF8': '0', 'PYTHONIOENCODING': 'utf-8'})
     cmd = [PY, '-B', '-m', 'vp.shard', prop, tier, str(seed), str(shard), str(nshards), out]
     if replay:
         cmd.append(replay)
@@ -391,7 +439,7 @@ def conclude(prop, tier, seed, mod, results, errors, wall, replay):
             path = os.path.join(rdir, '%s.json' % h)
             with open(path, 'w') as f:
                 json.dump({'property': prop, 'key': v['key'], 'msg': v['msg'], 'case': v['case'],
-                           'seed': seed, 'tier': tier}, f, indent=1, ensure_ascii=True)
+                           'seed': seed, 'tier': tier, 'ambient': v.get('ambient', 'default')}, f, indent=1, ensure_ascii=True)
             replay_paths.append((v['key'], path, v['msg']))
 
     # --- report
